@@ -319,7 +319,9 @@ class Env:
         data = fill if kind == "str" else fill.encode()
         return mid, data
 
-    def send(self, e, tok, size, kind="bytes", probe=False):
+    def send(self, e, tok, size, kind="bytes", probe=False, then_close=False):
+        """send() one message; then_close: call close() in the same event-loop tick (before the
+        flush task scheduled by send() has run)."""
         ch = self.chan[tok][e]
         if ch is None:
             return None
@@ -335,6 +337,12 @@ class Env:
         self.sent.setdefault((tok, e), []).append([mid, data, False])
         self._sent_this_step[(tok, e)] = nbytes
         self.ev(k="send", e=e, c=tok, m=mid, n=nbytes, probe=bool(probe))
+        if then_close:
+            self.ev(k="close", e=e, c=tok, est=bool(self.ep[e].state == "connected"), hasid=bool(ch.id is not None))
+            try:
+                ch.close()
+            except Exception as exc:
+                self.ev(k="exc", where="close", name=type(exc).__name__, fn=_innermost(exc))
         self.end_step()
         return mid
 
